@@ -458,6 +458,12 @@ func (rtcmHandler *Handler) GetMessage(bitStream []byte) (*Message, error) {
 
 		const timestampPosition = utils.LeaderLengthBits + header.LenMessageType + header.LenStationID
 
+		if uint(len(bitStream))*8 < timestampPosition+header.LenTimeStamp {
+			// The frame is valid but too short to hold an MSM header as far as the timestamp.
+			message.ErrorMessage = "MSM message frame is too short to contain a timestamp"
+			return message, errors.New(message.ErrorMessage)
+		}
+
 		message.Timestamp =
 			uint(utils.GetBitsAsUint64(bitStream, timestampPosition, header.LenTimeStamp))
 
